@@ -7,6 +7,7 @@ import P2sh.Driver.BuiltinDrv
 import P2sh.Driver.ScanDrv
 import P2sh.Driver.VmDrv
 import P2sh.Driver.SymtabDrv
+import P2sh.Driver.CliDrv
 open P2sh.Driver
 
 def dispatch (line : String) : String :=
@@ -24,6 +25,7 @@ def dispatch (line : String) : String :=
     | "builtin" => BuiltinDrv.run args
     | "scan" => ScanDrv.runScan args
     | "symtab" => SymtabDrv.run args
+    | "cli" => CliDrv.run args
     | "parse" => "MODEL-SKIP ## nopanic"
     | "compile" => "MODEL-SKIP ## nopanic"
     | _ => s!"bad-op {op}"
